@@ -81,11 +81,29 @@ pub async fn exec(f: u32, a: &Args) -> Args {
                     _ => b.with_bind_address_v6("[::]:0".parse().unwrap(), dc[dual as usize]).with_no_cert_validation().build(),
                 };
                 match Endpoint::client(cfg) {
-                    Ok(ep) => ep.local_addr().unwrap(),
+                    Ok(ep) => {
+                        // functional probe of the client socket: can it reach a server that listens on
+                        // the IPv4 loopback only, and one that listens on the IPv6 loopback only?
+                        let l = ep.local_addr().unwrap();
+                        let mut reach = vec![];
+                        for bind in ["127.0.0.1:0", "[::1]:0"] {
+                            let scfg = ServerConfig::builder().with_bind_address(bind.parse().unwrap()).with_identity(identity()).build();
+                            let server = match Endpoint::server(scfg) { Ok(s) => s, Err(_) => { reach.push(9); continue; } };
+                            let sa = server.local_addr().unwrap();
+                            let url = if sa.is_ipv4() { format!("https://127.0.0.1:{}/b", sa.port()) } else { format!("https://[::1]:{}/b", sa.port()) };
+                            let acc = tokio::spawn(async move { let c = wt_accept(&server).await; tokio::time::sleep(Duration::from_secs(3)).await; drop(c); server });
+                            let r = tokio::time::timeout(Duration::from_millis(900), ep.connect(&url)).await;
+                            if std::env::var("E4_DEBUG").is_ok() { eprintln!("probe {} -> {:?}", url, r.as_ref().map(|x| x.as_ref().map(|_| ()))); }
+                            reach.push(matches!(r, Ok(Ok(_))) as u64);
+                            acc.abort();
+                        }
+                        return vec![vec![1], ip_code(l.ip()), vec![(l.port() != 0) as u64, reach[0], reach[1]], vec![]];
+                    }
                     Err(_) => return vec![vec![0]],
                 }
             };
-            vec![vec![1], ip_code(local.ip()), vec![(local.port() != 0) as u64, 7, 7], vec![]]
+            #[allow(unreachable_code)]
+            { let _: SocketAddr = local; vec![vec![0]] }
         }
         // idle timeout representability: [millis_hi, millis_lo_as_secs?]: a[0] = [secs, nanos]
         751 => {
@@ -199,6 +217,35 @@ pub async fn exec(f: u32, a: &Args) -> Args {
 
 pub fn oracle(f: u32, a: &Args, out: &Args) -> Option<(&'static str, String)> {
     match f {
+        741 => {
+            // C20 on the implementation alone: the documented meaning of each bind choice as
+            // (address, reaches/reachable over IPv4 loopback, over IPv6 loopback); None = OS decides
+            if out[0][0] != 1 {
+                return Some(("C20", format!("endpoint with bind choice {:?} could not be created", a[0])));
+            }
+            let v4l = vec![4u64, 127, 0, 0, 1];
+            let v4a = vec![4u64, 0, 0, 0, 0];
+            let mut v6l = vec![6u64]; v6l.extend([0u64; 15]); v6l.push(1);
+            let mut v6a = vec![6u64]; v6a.extend([0u64; 16]);
+            let (ip, r4, r6): (Vec<u64>, Option<u64>, u64) = match (a[0][1], a[0][2]) {
+                (0, _) | (6, _) => (v4l, Some(1), 0),
+                (1, _) | (2, _) => (v6l, Some(0), 1),
+                (3, _) => (v4a, Some(1), 0),
+                (4, _) => (v6a, Some(0), 1),
+                (5, _) => (v6a, Some(1), 1),
+                (7, 0) => (v6a, None, 1),
+                (7, 1) => (v6a, Some(0), 1),
+                _ => (v6a, Some(1), 1),
+            };
+            let role = if a[0][0] == 0 { "server" } else { "client" };
+            if out[1] != ip {
+                return Some(("C20", format!("{} bind choice {:?}: bound to {:?}, documented {:?}", role, a[0], out[1], ip)));
+            }
+            if out[2][0] != 1 || r4.map(|x| x != out[2][1]).unwrap_or(false) || out[2][2] != r6 {
+                return Some(("C20", format!("{} bind choice {:?}: IPv4 loopback {} / IPv6 loopback {} (documented {:?} / {})", role, a[0], out[2][1], out[2][2], r4, r6)));
+            }
+            None
+        }
         751 => {
             // refused iff the duration in milliseconds does not fit a QUIC varint (never altered silently)
             let ms: u128 = a[0][0] as u128 * 1000 + (a[0][1] as u128) / 1_000_000;
@@ -263,6 +310,11 @@ pub fn generate(rng: &mut Rng, thorough: bool, which: &str) -> Vec<Case> {
                            ((max_ms / 1000) as u64, ((max_ms % 1000) as u64) * 1_000_000), ((max_ms / 1000) as u64, ((max_ms % 1000) as u64) * 1_000_000 + 999_999),
                            ((max_ms / 1000) as u64, ((max_ms % 1000) as u64 + 1) * 1_000_000), (((1u128 << 62) / 1000) as u64 + 1, 0), (u64::MAX, 999_999_999)] {
                 cs.push(Case::new(751, vec![vec![s, n]], "representability"));
+            }
+            // beyond 2^64 ms: values whose low 64 bits would look small
+            for s in [1u64 << 61, (1 << 61) + 2, u64::MAX / 1000 + 31, u64::MAX / 1000, u64::MAX / 1000 + 1, 1 << 53, 1 << 54, (1 << 62) / 1000, 3 << 60] {
+                cs.push(Case::new(751, vec![vec![s, 0]], "representability-wrap"));
+                cs.push(Case::new(751, vec![vec![s, 999_000_000]], "representability-wrap"));
             }
             cs.push(Case::new(752, vec![vec![400, 0, 1500]], "idle-expires"));
             cs.push(Case::new(752, vec![vec![500, 120, 1300]], "keep-alive-holds"));
